@@ -16,6 +16,10 @@ def setup_repo_path():
     if p not in sys.path:
         sys.path.insert(0, p)
     os.environ.setdefault("MDOMINIJANNI_INFERNO_VERIF", "1")
+    if os.environ.get("VERIF_ARGAUDIT") and not globals().get("_ARGAUDIT"):
+        globals()["_ARGAUDIT"] = True                 # tooling: record the classes of argument values (harness/argaudit.py)
+        from . import argaudit
+        argaudit.install(os.environ["VERIF_ARGAUDIT"])
 
 
 class MachineryFailure(Exception):
